@@ -2,9 +2,9 @@ package main
 
 import (
 	"fmt"
-	"os"
 	"go/token"
 	"go/types"
+	"os"
 	"sort"
 	"strings"
 
@@ -103,10 +103,10 @@ func c15ClearCovers(c *Ctx, t, dense *types.Named, pr *paginatedRoles) {
 	}
 	// what Clear does: direct stores, stores of the embedded Clear (collapsing types), loops
 	type clearFact struct {
-		val      *Term
-		how      string
-		emptied  bool // map emptied / inner slices truncated in a loop
-		innerFn  *ssa.Function
+		val     *Term
+		how     string
+		emptied bool // map emptied / inner slices truncated in a loop
+		innerFn *ssa.Function
 	}
 	facts := map[string]*clearFact{}
 	var collect func(f *ssa.Function, prefix []string)
